@@ -13,7 +13,7 @@ from . import common
 
 LEVEL = "model_checking"
 RECOVER = {"Peek", "Pointer", "Select", "GreedyRange", "Union"}
-KINDS = {"in-pos", "out-pos", "out-value", "out-status", "result:result-pos", "result:result-value", "result:result-status"}
+KINDS = {"in-pos", "out-pos", "out-value", "out-status", "result:result-pos", "result:result-value", "result:result-status", "result:result-bytes"}
 
 def run(ctx):
     rng = ctx.rng
@@ -34,14 +34,33 @@ def run(ctx):
             for data in inputs:
                 st = rng.choice([0, 0, 1, 2])
                 ip, p = camp.parse(prog, con, b"\xee" * st + data, st, {})
-                if p["res"]["ok"] and rng.random() < 0.25:
+                if p["res"]["ok"] and rng.random() < 0.35:
                     try:
                         camp.build(prog, con, V.dec(p["res"]["v"]), rng.choice([b"", b"\xee\xee\xee\xee"]), {}, arg=p["res"]["v"])
                     except Exception:
                         pass
+            # building through alternatives: what a failed alternative wrote leaves no trace in the output either
+            if any(n["k"] in ("Select", "Optional") for n in A.walk(prog)):
+                for _ in range(3):
+                    try:
+                        v = gen.build_value(rng, prog, {})
+                    except Exception:
+                        continue
+                    camp.build(prog, con, v, rng.choice([b"", b"\xee"]), {})
             camp.sh.maybe_flush()
             if i < 3:
                 ctx.sample({"program": prog})
+        # an alternative that fails only after it has written something, followed by a shorter successful one
+        I32, I16, B = A.Alias("Int32ub"), A.Alias("Int16ub"), A.Alias("Byte")
+        for prog, vals in ((A.Select(A.Sequence(I32, B), A.Sequence(B, I16)), [[1, 300], [1, 2], [256, 1], [70000, 1]]),
+                           (A.Optional(A.Sequence(I16, B)), [[0x4142, 300], [1, 2], None]),
+                           (A.Struct(A.Renamed("h", B), A.Renamed("x", A.Select(A.Struct(A.Renamed("a", I16), A.Renamed("b", A.Const(b"\x01"))), A.Struct(A.Renamed("a", B)))), A.Renamed("t", B)),
+                            [{"h": 1, "x": {"a": 5, "b": b"\x02"}, "t": 9}, {"h": 1, "x": {"a": 5}, "t": 9}, {"h": 1, "x": {"a": 300, "b": b"\x02"}, "t": 9}]),
+                           (A.Select(A.Sequence(I16, A.Select(A.Sequence(I32, B), B)), A.Sequence(B, B)), [[1, 300], [1, [1, 300]], [1, 2]])):
+            con = campaign.realizable(prog)
+            for v in vals:
+                for pre in (b"", b"\xee\xee"):
+                    camp.build(prog, con, v, pre, {})
         # Pointer over another stream (stream=...): the member is processed there, at the target, and that stream is put back
         import io, construct as cs
         oprog = {"k": "Opaque", "desc": "Pointer(stream=other)"}
@@ -66,7 +85,9 @@ def run(ctx):
         speccode.drive(camp, progs, kw, sessions)
         vs = camp.validate()
         campaign.judge(ctx, camp, vs, clauses=("C09.alt-stream",), conformance=lambda v, m: campaign.kind_of(v) in KINDS and
-                       (v["exp"]["k"] in RECOVER or v["got"]["k"] in RECOVER or campaign.kind_of(v).startswith("result:")) and m["case"]["op"] == "parse")
+                       (v["exp"]["k"] in RECOVER or v["got"]["k"] in RECOVER or campaign.kind_of(v).startswith("result:")) and
+                       (m["case"]["op"] == "parse" or (m["case"]["op"] == "build" and any(n["k"] in ("Select", "Optional") for n in A.walk(m["prog"])) and
+                                                       campaign.kind_of(v) in ("result:result-bytes", "result:result-status", "result:result-pos", "out-value", "out-status", "out-pos", "in-pos"))))
         cvs = campaign.validate_cam(camp)
         campaign.judge_cam(ctx, camp, cvs, ["C09."])
         if not quick:
